@@ -35,6 +35,16 @@ CHECKS = {
          "The same generic Gallina term, instantiated at binary64, is compared sample by sample with tempProfile(dt) on thousands of random programs.",
     ref="6 C05", technique="Rocq proof over R (archimed-based ceil, chain invariant by induction over segments, permutation-invariant insertion sort) + float-instance correspondence by vm_compute",
     note=TB % "c05" + "binary64 rounding is not analysed (generic term shared by the R and float instances); S6/S7 composition and the order dependence for equal hold temperatures (known finding) are outside the theorems."),
+ "C06": dict(
+    cat="proof",
+    text="Theorems over R (props/C06.v): liquid step is a convex combination when the stability number <= 1; the nucleation jump (direct: always; indirect: "
+         "supercooling < gamma) gives 0 < sigma < 1 and warms the vial onto the depression curve at or below T_eq_l; a vial on the curve with 0 <= sigma < 1 is "
+         "<= T_eq_l; the solidifying step keeps sigma < 1 and T >= the coldest partner temperature under an explicit step condition and grows the ice under net cooling; "
+         "and by induction over the run every vial in every stored column satisfies coldest-shelf-so-far <= T <= hi with sigma = 0 or (0 < sigma < 1 and T on the curve). "
+         "PARTIAL: positivity of an iced vial's ice fraction under a warming heat flow is a hypothesis observed on each trajectory. The hypotheses are evaluated on every "
+         "generated configuration; runs inside are judged by a bounds oracle.",
+    ref="6 C06", technique="Rocq proof over R (convexity, quadratic step condition, induction over the run) + hypothesis evaluation + bounds oracle + sampled step correspondence",
+    note=TB % "c06" + "NoRemelt hypothesis observed, not derived; finiteness is checked by the oracle only."),
  "C09": dict(
     cat="proof",
     text="Theorems for every batch shape and both arrangements (props/C09.v, axiom-free except the two heat-flow statements over R): "
